@@ -595,6 +595,23 @@ impl Runner {
         }
     }
 
+    /// `open-bitstr` done by the host: the bit-string on top of the stack is taken off and given to
+    /// `Xstate::set_binary_input` (for the model and the oracle this is the word `open-bitstr`)
+    pub fn open_api(&mut self, tok: String) -> Option<(Result<(), Xerr>, Obs)> {
+        self.toks.push(tok);
+        let xs = &mut self.xs;
+        let res = crate::guarded(|| { let bs = xs.pop_data()?.to_bitstr()?; xs.set_binary_input(bs) });
+        let obs = match &res { Some(_) => observe(&mut self.xs), None => None };
+        match (res, obs) {
+            (Some(res), Some(obs)) => {
+                let st = match &res { Ok(()) => "ok".to_string(), Err(e) => format!("err:{}", canon::err(e)) };
+                self.report(&st, &obs);
+                Some((res, obs))
+            }
+            _ => { self.reports.push("panic".into()); self.dead = true; None }
+        }
+    }
+
     /// `Xstate::intercept_output`
     pub fn intercept(&mut self, yes: bool) {
         self.toks.push(if yes { "I+" } else { "I-" }.into());
@@ -857,7 +874,10 @@ fn one_sequence(ctx: &mut Ctx, base: &Xstate, nops: usize) {
             ctx.tag(&format!("arg:{}:{}", wclass, argkind));
         }
         ctx.tag(&format!("align:start%8={}", before.start % 8));
-        match rn.word(&word, tok) {
+        // a host opens inputs through the API (`set_binary_input`): the same operation as the word
+        let via_api = word == "open-bitstr" && matches!(before.stack.last(), Some(Cell::Bitstr(_))) && ctx.rng.chance(30);
+        if via_api { ctx.tag("api:set_binary_input"); }
+        match if via_api { rn.open_api(tok) } else { rn.word(&word, tok) } {
             Some((res, after)) => {
                 ctx.tag(&format!("outcome:{}:{}", wclass, tag_of_result(&res)));
                 oracle_step(ctx, &mut rc, &word, &res, &before, &after, &case);
@@ -904,10 +924,58 @@ fn size_class(c: &Cell, remain: usize, unit: usize) -> &'static str {
     }
 }
 
+/// A read refused by the stack limit is a failing read like any other: input, offset and the stack stay as they were
+/// (repair afd22d3: the words that take no argument used to move the offset before the refused push). The cursor
+/// model has no stack limit, so this is an oracle on the implementation only.
+fn refused_by_the_stack_limit(ctx: &mut Ctx, base: &Xstate) {
+    let mut xs = base.clone();
+    let r = &mut ctx.rng;
+    let mut body: Vec<bool> = (0..8 * (2 + r.below(20))).map(|_| r.bool()).collect();
+    // a zero byte somewhere, so that nulbytestr / cstr have something to find
+    let z = (r.below(body.len() / 8)) * 8;
+    for b in body[z..z + 8].iter_mut() { *b = false; }
+    let pre = if r.chance(60) { 0 } else { 8 * r.below(3) };
+    let input = embed(r, &body, pre, 0);
+    xs.set_binary_input(input).unwrap();
+    for _ in 0..r.below(4) { let _ = xs.eval(*r.pick(&["u8 drop", "8 bits", "u16", "1 bytes drop"])); }
+    let depth = xs.data_depth();
+    let word = if r.chance(70) { r.pick(READ_FIXED).to_string() } else { r.pick(&["nulbytestr", "cstr", "remain", "offset", "input"]).to_string() };
+    let sig = |xs: &Xstate| format!("offset={} input={} stack=[{}]", canon::cell(xs.get_var_value("offset").unwrap()), canon::cell(xs.get_var_value("input").unwrap()),
+        canon::stack(xs).iter().map(canon::cell).collect::<Vec<_>>().join(","));
+    // what the word does with room on the stack
+    let mut free = xs.clone();
+    let rfree = crate::guarded(|| free.eval(&word));
+    xs.set_stack_limit(Some(depth)).unwrap();
+    let before = sig(&xs);
+    let res = crate::guarded(|| xs.eval(&word));
+    let after = sig(&xs);
+    let case = format!("C06 stack limit {} = depth, then `{}` on input {} at {}", depth, word, canon::cell(xs.get_var_value("input").unwrap()), before);
+    match (&rfree, &res) {
+        (Some(Ok(())), Some(Err(_))) => {
+            ctx.check(before == after, || case.clone(), || format!("refused, nothing moved: {}", before), || after.clone());
+            // once the limit is raised the same read succeeds exactly as it would have
+            xs.set_stack_limit(None).unwrap();
+            let again = crate::guarded(|| xs.eval(&word));
+            let (a, b) = (sig(&xs), sig(&free));
+            ctx.check(matches!(again, Some(Ok(()))) && a == b, || format!("{} — and again with the limit raised", case), || b.clone(), || format!("{:?} {}", again.map(|r| r.is_ok()), a));
+            ctx.tag("stack-limit:read-refused");
+        }
+        (Some(Err(_)), Some(Err(_))) => {
+            ctx.check(before == after, || case.clone(), || format!("fails either way, nothing moved: {}", before), || after.clone());
+            ctx.tag("stack-limit:read-fails-anyway");
+        }
+        (_, None) | (None, _) => ctx.oracle_fail(case, "a result or an error value, never a panic".into(), "panic".into()),
+        (_, Some(Ok(()))) => ctx.oracle_fail(case, "the push is refused: the stack is at its limit".into(), format!("Ok, {}", after)),
+    }
+}
+
 pub fn run(ctx: &mut Ctx) {
     let base = Xstate::boot().unwrap();
     for _ in 0..ctx.n {
         let nops = 3 + ctx.rng.below(18);
         one_sequence(ctx, &base, nops);
+    }
+    for _ in 0..(ctx.n / 4).max(100) {
+        refused_by_the_stack_limit(ctx, &base);
     }
 }
